@@ -1,4 +1,5 @@
 import Btdht.Proofs.Handler
+import Btdht.Proofs.Deadline
 /-!
 # C04 — Every search ends, neither early nor never
 
@@ -108,69 +109,6 @@ theorem C04_query_timeout_delay (acc : RoundAcc) (hd : Handle × Bytes) :
     by rw [lookupTimeout_eq], rfl, ?_⟩
   · unfold requestStep; simp only; split <;> simp [Timer.scheduleAt]
   · unfold requestStep; simp only; split <;> simp [Timer.scheduleAt]
-
-/-- the minimum of a fold keeps a lower bound -/
-theorem earliest_min {τ} (entries : List (TimerEntry τ)) :
-    ∀ (acc : Option (TimerEntry τ)) (m : TimerEntry τ),
-      entries.foldl (fun acc e => match acc with
-        | none => some e
-        | some m => if keyLe (m.deadline, m.id) (e.deadline, e.id) then some m else some e) acc = some m →
-      (∀ a, acc = some a → keyLe (m.deadline, m.id) (a.deadline, a.id) = true) ∧
-      (∀ e ∈ entries, keyLe (m.deadline, m.id) (e.deadline, e.id) = true) ∧
-      (m ∈ entries ∨ acc = some m) := by
-  have refl : ∀ (a : Nat × Nat), keyLe a a = true := by intro a; simp [keyLe]
-  have trans : ∀ (a b c : Nat × Nat), keyLe a b = true → keyLe b c = true → keyLe a c = true := by
-    intro a b c h1 h2
-    simp only [keyLe, Bool.or_eq_true, Bool.and_eq_true, decide_eq_true_eq] at h1 h2 ⊢
-    omega
-  have total : ∀ (a b : Nat × Nat), keyLe a b = false → keyLe b a = true := by
-    intro a b h
-    simp only [keyLe, Bool.or_eq_false_iff, Bool.and_eq_false_iff, decide_eq_false_iff_not] at h
-    simp only [keyLe, Bool.or_eq_true, Bool.and_eq_true, decide_eq_true_eq]
-    omega
-  induction entries with
-  | nil =>
-    intro acc m h
-    simp only [List.foldl_nil] at h
-    exact ⟨fun a ha => by rw [h] at ha; cases ha; exact refl _, by simp, Or.inr h⟩
-  | cons x xs ih =>
-    intro acc m h
-    simp only [List.foldl_cons] at h
-    cases acc with
-    | none =>
-      obtain ⟨h1, h2, h3⟩ := ih (some x) m h
-      refine ⟨by simp, ?_, ?_⟩
-      · intro e he
-        rcases List.mem_cons.mp he with rfl | he
-        · exact h1 _ rfl
-        · exact h2 e he
-      · rcases h3 with h3 | h3
-        · exact Or.inl (List.mem_cons_of_mem _ h3)
-        · cases h3; exact Or.inl (by simp)
-    | some a =>
-      simp only at h
-      by_cases hle : keyLe (a.deadline, a.id) (x.deadline, x.id) = true
-      · simp only [hle, if_true] at h
-        obtain ⟨h1, h2, h3⟩ := ih (some a) m h
-        refine ⟨fun b hb => by cases hb; exact h1 _ rfl, ?_, ?_⟩
-        · intro e he
-          rcases List.mem_cons.mp he with rfl | he
-          · exact trans _ _ _ (h1 _ rfl) hle
-          · exact h2 e he
-        · rcases h3 with h3 | h3
-          · exact Or.inl (List.mem_cons_of_mem _ h3)
-          · exact Or.inr h3
-      · have hle' : keyLe (a.deadline, a.id) (x.deadline, x.id) = false := by simpa using hle
-        simp only [hle', Bool.false_eq_true, if_false] at h
-        obtain ⟨h1, h2, h3⟩ := ih (some x) m h
-        refine ⟨fun b hb => by cases hb; exact trans _ _ _ (h1 _ rfl) (total _ _ hle'), ?_, ?_⟩
-        · intro e he
-          rcases List.mem_cons.mp he with rfl | he
-          · exact h1 _ rfl
-          · exact h2 e he
-        · rcases h3 with h3 | h3
-          · exact Or.inl (List.mem_cons_of_mem _ h3)
-          · cases h3; exact Or.inl (by simp)
 
 /-- **C04 (timer order)**: the entry the timer hands out is one of its entries and no other entry
 has an earlier deadline (ties broken by scheduling order). -/
